@@ -59,8 +59,8 @@ def setup(ctx):
     _rig = G.Rig()
 
 
-def _case(rng, i, home, size, feats=None, vary=True, events=False, bare=False):
-    g = G.ProgramGen(rng, home, size, feats, events, bare)
+def _case(rng, i, home, size, feats=None, vary=True, events=False, bare=False, structs=False):
+    g = G.ProgramGen(rng, home, size, feats, events, bare, structs)
     prog = g.program()
     return {'home': home, 'prog': prog, 'style': rng.randint(0, 2 ** 30), 'vary': vary,
             'via_model': rng.random() < 0.15, 'events': events, 'gstats': dict(g.stats)}
@@ -106,7 +106,7 @@ def generate(ctx, n_quick=1350, multi=True, bare=False):
         r = rng.fork(i)
         # every fifth body may also hold event statements
         yield _case(r, i, G.HOMES[i % len(G.HOMES)], r.randint(1, maxsize), None, vary=r.random() < 0.85,
-                    events=(i % 5 == 4), bare=bare and (i % 3 == 0))
+                    events=(i % 5 == 4), bare=bare and (i % 3 == 0), structs=(i % 7 == 3))
 
 
 def text_of(case):
